@@ -450,6 +450,9 @@ type gcase struct {
 	// FocusOnly: fault sites are drawn among the focused invocations only (the other hints
 	// of the circuit belong to another property)
 	FocusOnly bool
+	// PostCheck inspects every faulted run, accepted or not (e.g. whether a Fiat-Shamir challenge
+	// still depends on the values the prover was made to change); "" = fine
+	PostCheck func(honest, faulted []hintCall, planned map[int]bool) string
 }
 
 type compiled struct {
@@ -694,6 +697,18 @@ func nemesisRun(w *Worker, tape *simrt.Tape, prop string, cases []*gcase, fields
 		err, pan := runCase(n, gc, comp, a, f.Q, builder)
 		o.Evals++
 		fd := strings.Join(fdesc, "+")
+		if gc.PostCheck != nil && pan == "" {
+			planned := map[int]bool{}
+			for idx := range n.plan {
+				planned[idx] = true
+			}
+			if msg := gc.PostCheck(base.calls, n.calls, planned); msg != "" {
+				if o.violateOrKnown(w, "challenge-not-bound", "challenge-not-bound:"+where, msg+"\nfault: "+fd+"\ncase: "+o.Desc) {
+					o.Viol.Faults = fdesc
+					return o
+				}
+			}
+		}
 		if pan != "" {
 			if o.violateOrKnown(w, "solver-panic", "solver-panic:"+where+":"+panicSite(pan), "a faulted hint answer made the solver panic: "+pan+"\nfault: "+fd+"\ncase: "+o.Desc) {
 				o.Viol.Faults = fdesc
